@@ -110,6 +110,30 @@ func TestC18(t *testing.T) {
 		if got == nil || !got.Equals(want) {
 			t.Fatalf("%s:\n  expected %s, got %v", desc, want, got)
 		}
+		// the result belongs to the caller: after it has been modified, the same question - and the empty
+		// question - must still get the right answer
+		got.Add(4000000)
+		got.Add(7)
+		got.RunOptimize()
+		for _, l := range [][]segment.Term{list, nil, {}} {
+			var again *roaring.Bitmap
+			err = safely("DocsMatchingTerms", func() error {
+				var e error
+				again, e = c.Seg.DocsMatchingTerms(l)
+				return e
+			})
+			if err != nil {
+				t.Fatalf("%s: %v", desc, err)
+			}
+			w := want
+			if len(l) == 0 {
+				w = roaring.New()
+			}
+			if again == nil || !again.Equals(w) {
+				t.Fatalf("%s:\n  asked again (%d entries) after the caller modified an earlier result: expected %s, got %v", desc, len(l), w, again)
+			}
+			again.Add(4000001)
+		}
 		nt := n >= 2 && len(fieldsSeen) >= 2 && !want.IsEmpty()
 		st.Record(desc, nt, dedup(append(labels, c.LabelList()...))...)
 	})
